@@ -1118,3 +1118,392 @@ Lemma ex_ts_copy_history :
 Proof.
   eexists. eexists. split; [vm_compute; reflexivity|]. split; vm_compute; [discriminate|reflexivity].
 Qed.
+
+(* ------------------------------------------------------------------ failure atomicity of += -= *= *)
+(* an object holding exactly one value (what int(self.t0) etc. need) *)
+Definition scalar_at (s : store) (l bl : loc) (z cf : Z) : Prop :=
+  exists sh k dt, mem s l = Some (CArr bl sh k) /\ mem s bl = Some (CBuf dt [z]) /\ kind_cf k = cf.
+
+Lemma bind_ok A B (m : M A) (f : A -> M B) s s' a : m s = (s', Ok a) -> bind m f s = f a s'.
+Proof. intros H. unfold bind. rewrite H. reflexivity. Qed.
+Lemma read_ok l s c : mem s l = Some c -> read l s = (s, Ok c).
+Proof. intros H. unfold read. rewrite H. reflexivity. Qed.
+Lemma arr_info_ok l s b sh k dt d : mem s l = Some (CArr b sh k) -> mem s b = Some (CBuf dt d) ->
+  arr_info l s = (s, Ok (mk_ainfo b sh k dt d)).
+Proof.
+  intros H1 H2. unfold arr_info. rewrite (bind_ok _ _ _ _ _ _ _ (read_ok _ _ _ H1)).
+  rewrite (bind_ok _ _ _ _ _ _ _ (read_ok _ _ _ H2)). reflexivity.
+Qed.
+Lemma scalar_of_ok l s b sh k dt z : mem s l = Some (CArr b sh k) -> mem s b = Some (CBuf dt [z]) ->
+  scalar_of l s = (s, Ok (z, kind_cf k)).
+Proof.
+  intros H1 H2. unfold scalar_of. rewrite (bind_ok _ _ _ _ _ _ _ (arr_info_ok _ _ _ _ _ _ _ H1 H2)). reflexivity.
+Qed.
+Lemma write_eq l c s : write l c s = (mkstore (next s) (upd (mem s) l c), Ok tt).
+Proof. reflexivity. Qed.
+
+Ltac clear_neq := repeat match goal with H : _ <> _ |- _ => clear H end.
+Ltac neq_dec := repeat match goal with |- context [Nat.eqb ?a ?b] =>
+  first [ rewrite (Nat.eqb_refl a)
+        | rewrite (proj2 (Nat.eqb_neq a b)) by (first [assumption | apply not_eq_sym; assumption | clear_neq; lia]) ] end.
+Ltac lk := cbn [mem next]; unfold upd; neq_dec; cbn iota; eassumption.
+
+Lemma follow_shift_runs self w sign s1 cb b sh cf t0 si dur bw shw kw dtw dw b0 b1 b2 z0 z1 z2 c0 c1 c2 :
+  let s2 := mkstore (next s1) (upd (mem s1) b cb) in
+  mem s1 self = Some (CArr b sh (KUniform cf t0 si dur)) ->
+  mem s1 w = Some (CArr bw shw kw) -> mem s1 bw = Some (CBuf dtw dw) ->
+  scalar_at s1 t0 b0 z0 c0 -> scalar_at s1 si b1 z1 c1 -> scalar_at s1 dur b2 z2 c2 ->
+  (forall n, shw = [n] -> exists v0 v1 r, dw = v0 :: v1 :: r /\ (z1 + (sign * v1 - sign * v0) <> 0)%Z) ->
+  self < next s1 -> w < next s1 -> bw < next s1 ->
+  t0 < next s1 -> b0 < next s1 -> si < next s1 -> b1 < next s1 -> dur < next s1 -> b2 < next s1 ->
+  self <> b -> w <> b -> bw <> b -> w <> self -> bw <> self ->
+  t0 <> b -> b0 <> b -> si <> b -> b1 <> b -> dur <> b -> b2 <> b ->
+  t0 <> self -> b0 <> self -> si <> self -> b1 <> self -> dur <> self -> b2 <> self ->
+  snd (follow_shift self w sign s2) = Ok tt.
+Proof.
+  intros s2 Hself Hw Hbw (sh0 & k0 & dt0 & Ht0 & Hb0 & Hc0) (sh1 & k1 & dt1 & Hsi & Hb1 & Hc1)
+         (sh2 & k2 & dt2 & Hdur & Hb2 & Hc2) Hshape.
+  intros. subst s2.
+  assert (L1 : mem {| next := next s1; mem := upd (mem s1) b cb |} self = Some (CArr b sh (KUniform cf t0 si dur))) by lk.
+  assert (L2 : mem {| next := next s1; mem := upd (mem s1) b cb |} w = Some (CArr bw shw kw)) by lk.
+  assert (L3 : mem {| next := next s1; mem := upd (mem s1) b cb |} bw = Some (CBuf dtw dw)) by lk.
+  unfold follow_shift. unfold bind at 1. rewrite (read_ok _ _ _ L1). cbv beta iota.
+  unfold bind at 1. rewrite (arr_info_ok _ _ _ _ _ _ _ L2 L3). cbv beta iota.
+  cbn [a_shape a_data].
+  assert (Hnon : forall shx, (forall n, shx <> [n]) -> shw = shx ->
+     snd ((t <- scalar_of t0;;
+        r <- match bcast Z.add [fst t] [] (map (Z.mul sign) dw) shx with
+             | Some (d, sh') => new_arr I64 d sh' (KTime (snd t))
+             | None => raise EValue end;; write self (CArr b sh (KUniform cf r si dur)))
+        {| next := next s1; mem := upd (mem s1) b cb |}) = Ok tt).
+  { intros shx Hx _. unfold bind at 1. erewrite (scalar_of_ok t0) by lk. cbv beta iota. cbn [fst snd].
+    assert (Hb : exists d sh', bcast Z.add [z0] [] (map (Z.mul sign) dw) shx = Some (d, sh')).
+    { unfold bcast. destruct shx as [|n [|n2 r]].
+      - cbn [shape_eqb]. eauto.
+      - exfalso. apply (Hx n). reflexivity.
+      - cbn [shape_eqb is_single]. eauto. }
+    destruct Hb as (d & sh' & ->). unfold bind at 1. rewrite new_arr_eq. cbv beta iota. reflexivity. }
+  destruct shw as [|n [|n2 shr]].
+  - apply (Hnon []); auto. intros n; discriminate.
+  - destruct (Hshape n eq_refl) as (v0 & v1 & r & -> & Hz).
+    unfold bind at 1. erewrite (scalar_of_ok t0) by lk. cbv beta iota.
+    unfold bind at 1. rewrite new_arr_eq. cbv beta iota.
+    unfold bind at 1. rewrite write_eq. cbv beta iota.
+    unfold bind at 1. erewrite (scalar_of_ok si) by lk. cbv beta iota.
+    unfold bind at 1. rewrite new_arr_eq. cbv beta iota.
+    unfold bind at 1. rewrite write_eq. cbv beta iota.
+    unfold bind at 1. erewrite (scalar_of_ok dur) by lk. cbv beta iota.
+    unfold bind at 1. rewrite new_arr_eq. cbv beta iota.
+    unfold bind at 1. rewrite write_eq. cbv beta iota.
+    cbn [fst snd]. destruct (Z.eqb_spec (z1 + (sign * v1 - sign * v0)) 0); [contradiction|reflexivity].
+  - apply (Hnon (n :: n2 :: shr)); auto. intros m; discriminate.
+Qed.
+
+Lemma has_cf_inv v s s1 h : has_cf v s = (s1, Ok h) -> s1 = s.
+Proof.
+  unfold has_cf. destruct v; try (inversion 1; auto; fail).
+  cbv beta delta [bind read ret]. destruct (mem s l) as [[| |? ? []|]|]; inversion 1; auto.
+Qed.
+
+Lemma mul_fresh_inv l k s s1 a : mul_fresh l k s = (s1, Ok a) ->
+  exists dt d sh kk,
+    s1 = mkstore (S (S (next s))) (upd (upd (mem s) (next s) (CBuf dt d)) (S (next s)) (CArr (next s) sh kk))
+    /\ a = S (next s).
+Proof.
+  unfold mul_fresh, bind. destruct (arr_info l s) as [s' [i|e]] eqn:E; [|inversion 1].
+  pose proof (arr_info_inv _ _ _ _ E). subst s'. rewrite new_arr_eq. inversion 1; subst. eauto 8.
+Qed.
+
+(* what the converted operand is: a fresh array, or the time object that was passed *)
+Definition fresh_arr (s s1 : store) (w : loc) : Prop :=
+  exists bw sh k dt d, mem s1 w = Some (CArr bw sh k) /\ mem s1 bw = Some (CBuf dt d) /\
+                       next s <= w /\ next s <= bw /\ w < next s1 /\ bw < next s1.
+
+Lemma convert_rest_inv cf v s s1 w :
+  (a <- asarray v ;; i <- arr_info a ;;
+   a2 <- match a_dt i with I32 => astype a I64 | _ => ret a end ;; mul_fresh a2 cf) s = (s1, Ok w) ->
+  fresh_arr s s1 w.
+Proof.
+  unfold bind at 1. pose proof (asarray_pure v s) as [P1 _].
+  destruct (asarray v s) as [s2 [a|]]; [|inversion 1]. simpl in P1.
+  unfold bind at 1. destruct (arr_info a s2) as [s3 [i|]] eqn:E2; [|inversion 1].
+  apply arr_info_inv in E2. subst s3.
+  unfold bind at 1.
+  assert (Hx : forall s4 a2, next s2 <= next s4 -> mul_fresh a2 cf s4 = (s1, Ok w) -> fresh_arr s s1 w).
+  { intros s4 a2 Hn H. apply mul_fresh_inv in H as (dt & d & sh & kk & -> & ->).
+    exists (next s4), sh, kk, dt, d. cbn [mem next]. rewrite upd_same.
+    rewrite upd_other by lia. rewrite upd_same. repeat split; auto; lia. }
+  destruct (a_dt i).
+  - pose proof (astype_pure a I64 s2) as [P2 _].
+    destruct (astype a I64 s2) as [s4 [a2|]]; [|inversion 1]. simpl in P2. apply Hx; lia.
+  - apply Hx; lia.
+  - apply Hx; lia.
+  - apply Hx; lia.
+Qed.
+
+Lemma ut_convert_inv cf v s s1 w : ut_convert cf v s = (s1, Ok w) ->
+  ext [] s s1 /\ (fresh_arr s s1 w \/ (v = PRef w /\ s1 = s)).
+Proof.
+  intros H. split.
+  { pose proof (ut_convert_pure cf v s) as P. rewrite H in P. exact P. }
+  revert H. unfold ut_convert. unfold bind at 1.
+  destruct (has_cf v s) as [sa [h|]] eqn:Eh; [|inversion 1].
+  apply has_cf_inv in Eh. subst sa.
+  destruct h as [z|]; destruct v as [x|x|l]; try (intros H; left; eapply convert_rest_inv; exact H).
+  inversion 1; subst. right. auto.
+Qed.
+
+Lemma scalar_of_inv l s s1 x : scalar_of l s = (s1, Ok x) -> s1 = s.
+Proof.
+  unfold scalar_of, bind. destruct (arr_info l s) as [s' [i|]] eqn:E; [|inversion 1].
+  apply arr_info_inv in E. subst s'. destruct (a_data i) as [|z [|]]; inversion 1; auto.
+Qed.
+
+Lemma diffs_cons d d0 ds : diffs d = d0 :: ds -> exists v0 v1 r, d = v0 :: v1 :: r /\ d0 = (v1 - v0)%Z.
+Proof. destruct d as [|v0 [|v1 r]]; simpl; inversion 1. eauto. Qed.
+
+Lemma arr_info_inv2 l s s1 i : arr_info l s = (s1, Ok i) ->
+  mem s l = Some (CArr (a_buf i) (a_shape i) (a_kind i)) /\ mem s (a_buf i) = Some (CBuf (a_dt i) (a_data i)).
+Proof.
+  unfold arr_info. cbv beta delta [bind read ret raise].
+  destruct (mem s l) as [[| |b sh k|]|] eqn:E1; try (inversion 1; fail).
+  destruct (mem s b) as [[]|] eqn:E2; inversion 1; subst; simpl. auto.
+Qed.
+
+Lemma ut_check_inv si sign w s s1 w' : ut_check si sign w s = (s1, Ok w') ->
+  s1 = s /\ w' = w /\ exists i, arr_info w s = (s, Ok i) /\
+  forall n, a_shape i = [n] -> exists v0 v1 r x,
+     a_data i = v0 :: v1 :: r /\ scalar_of si s = (s, Ok x) /\ (fst x + sign * (v1 - v0) > 0)%Z.
+Proof.
+  unfold ut_check. unfold bind at 1.
+  destruct (arr_info w s) as [s2 [i|]] eqn:E; [|inversion 1].
+  pose proof (arr_info_inv _ _ _ _ E). subst s2.
+  destruct (a_shape i) as [|n [|n2 r]] eqn:Es.
+  - inversion 1; subst. repeat split; auto. exists i. split; auto. intros m Hm. rewrite Es in Hm. discriminate.
+  - destruct (diffs (a_data i)) as [|d0 ds] eqn:Ed; [inversion 1|].
+    destruct (forallb (Z.eqb d0) ds); [|inversion 1].
+    unfold bind. destruct (scalar_of si s) as [s3 [x|]] eqn:Ex; [|inversion 1].
+    pose proof (scalar_of_inv _ _ _ _ Ex). subst s3.
+    destruct (Z.leb_spec (fst x + sign * d0) 0); inversion 1; subst.
+    repeat split; auto. exists i. split; auto. intros m _.
+    apply diffs_cons in Ed as (v0 & v1 & r & Hd & ->). exists v0, v1, r, x. repeat split; auto. lia.
+  - inversion 1; subst. repeat split; auto. exists i. split; auto. intros m Hm. rewrite Es in Hm. discriminate.
+Qed.
+
+Lemma iop_inplace_ok f self w s s2 : iop_inplace f self w s = (s2, Ok tt) ->
+  exists b sh k dt d cb, mem s self = Some (CArr b sh k) /\ mem s b = Some (CBuf dt d) /\
+                         s2 = mkstore (next s) (upd (mem s) b cb).
+Proof.
+  unfold iop_inplace. unfold bind at 1.
+  destruct (arr_info self s) as [s1 [ia|]] eqn:E1; [|inversion 1].
+  pose proof (arr_info_inv _ _ _ _ E1). subst s1. apply arr_info_inv2 in E1 as [A B].
+  unfold bind at 1. destruct (arr_info w s) as [s1 [ib|]] eqn:E2; [|inversion 1].
+  pose proof (arr_info_inv _ _ _ _ E2). subst s1.
+  destruct (is_int (a_dt ia) && negb (is_int (a_dt ib)) && negb match a_dt ib with B8 => true | _ => false end);
+    [inversion 1|].
+  destruct (bcast f (a_data ia) (a_shape ia) (a_data ib) (a_shape ib)) as [[d sh]|]; [|inversion 1].
+  destruct (shape_eqb sh (a_shape ia)); [|inversion 1].
+  rewrite write_eq. inversion 1; subst. eauto 10.
+Qed.
+
+(* a well-typed time axis: the three attribute slots hold one-valued time objects that are
+   separate from the axis itself and from its sample buffer *)
+Definition typed_axis (s : store) (self b : loc) : Prop :=
+  exists sh cf t0 si dur b0 b1 b2 z0 z1 z2 c0 c1 c2,
+    mem s self = Some (CArr b sh (KUniform cf t0 si dur)) /\
+    scalar_at s t0 b0 z0 c0 /\ scalar_at s si b1 z1 c1 /\ scalar_at s dur b2 z2 c2 /\
+    t0 <> self /\ si <> self /\ dur <> self /\ b0 <> b /\ b1 <> b /\ b2 <> b.
+
+Lemma wf_lt s l c : wf s -> mem s l = Some c -> l < next s.
+Proof.
+  intros [H _] Hm. destruct (Nat.lt_ge_cases l (next s)); auto. rewrite H in Hm by auto. discriminate.
+Qed.
+
+(* FAILURE ATOMICITY of UniformTime += / -= : a failing call has written nothing *)
+Lemma ut_iop_failure_atomic sign self v s e b :
+  wf s -> typed_axis s self b ->
+  (forall l, v = PRef l -> l <> self /\ forall bl sh k, mem s l = Some (CArr bl sh k) -> bl <> b) ->
+  snd (ut_iop sign self v s) = Exn e -> ext [] s (fst (ut_iop sign self v s)).
+Proof.
+  intros Hwf (sh & cf & t0 & si & dur & b0 & b1 & b2 & z0 & z1 & z2 & c0 & c1 & c2 &
+              Hself & Ht0 & Hsi & Hdur & N1 & N2 & N3 & N4 & N5 & N6) Hop Hexn.
+  destruct (ut_iop_failure_cases _ _ _ _ _ Hexn) as [|(s1 & w & s2 & E1 & E2 & E3)]; auto.
+  exfalso.
+  (* the prefix *)
+  revert E1. unfold ut_convert_check. unfold bind at 1. rewrite (read_ok _ _ _ Hself). cbv beta iota.
+  unfold bind at 1. destruct (ut_convert cf v s) as [sa [w0|]] eqn:Ec; [|inversion 1].
+  intros Ek. apply ut_check_inv in Ek as (Hs1 & Hw0 & i & Ei & Hshape). subst sa w0.
+  apply ut_convert_inv in Ec as [[Hn Hext] Hw].
+  apply iop_inplace_ok in E2 as (b' & sh' & k' & dtb & db & cb & Hs1self & Hs1b & ->).
+  pose proof (wf_lt _ _ _ Hwf Hself) as Lself.
+  assert (Same : forall l, l < next s -> mem s1 l = mem s l) by (intros; apply Hext; auto).
+  rewrite (Same self Lself), Hself in Hs1self. inversion Hs1self; subst b' sh' k'. clear Hs1self.
+  pose proof Hwf as [_ Hrefs].
+  assert (Lb : b < next s) by (apply (Hrefs self _ Hself); simpl; auto).
+  assert (Lt0 : t0 < next s) by (apply (Hrefs self _ Hself); simpl; auto).
+  assert (Lsi : si < next s) by (apply (Hrefs self _ Hself); simpl; auto).
+  assert (Ldur : dur < next s) by (apply (Hrefs self _ Hself); simpl; auto).
+  rewrite (Same b Lb) in Hs1b.
+  destruct Ht0 as (sh0 & k0 & dt0 & Ht0 & Hb0 & Hc0).
+  destruct Hsi as (sh1 & k1 & dt1 & Hsi & Hb1 & Hc1).
+  destruct Hdur as (sh2 & k2 & dt2 & Hdur & Hb2 & Hc2).
+  assert (Lb0 : b0 < next s) by (apply (Hrefs t0 _ Ht0); destruct k0; simpl; auto).
+  assert (Lb1 : b1 < next s) by (apply (Hrefs si _ Hsi); destruct k1; simpl; auto).
+  assert (Lb2 : b2 < next s) by (apply (Hrefs dur _ Hdur); destruct k2; simpl; auto).
+  apply arr_info_inv2 in Ei as [Hw1 Hw2].
+  (* the operand, as converted, is separate from the axis *)
+  assert (Hsep : a_buf i <> b /\ w <> self /\ w < next s1 /\ a_buf i < next s1).
+  { destruct Hw as [(bw & shw & kw & dtw & dw & A & B & C & D & E & F)|[-> ->]].
+    - rewrite Hw1 in A. inversion A; subst. repeat split; auto; lia.
+    - destruct (Hop w eq_refl) as [O1 O2]. repeat split; auto.
+      + eapply O2; eauto.
+      + eapply wf_lt; eauto.
+      + apply (Hrefs w _ Hw1). destruct (a_kind i); simpl; auto. }
+  destruct Hsep as (S1 & S2 & S3 & S4).
+  assert (Ws : w <> b) by (intro; subst w; rewrite (Same b Lb), Hs1b in Hw1; discriminate).
+  assert (Bs : a_buf i <> self).
+  { intro Hx. rewrite Hx in Hw2. rewrite (Same self Lself), Hself in Hw2. discriminate. }
+  assert (Es : snd (follow_shift self w sign {| next := next s1; mem := upd (mem s1) b cb |}) = Ok tt).
+  { eapply (follow_shift_runs self w sign s1 cb b sh cf t0 si dur (a_buf i) (a_shape i) (a_kind i) (a_dt i) (a_data i)
+              b0 b1 b2 z0 z1 z2 c0 c1 c2); try lia; auto.
+    - rewrite Same; auto.
+    - exists sh0, k0, dt0. rewrite !Same; auto.
+    - exists sh1, k1, dt1. rewrite !Same; auto.
+    - exists sh2, k2, dt2. rewrite !Same; auto.
+    - intros n Hn'. destruct (Hshape n Hn') as (v0 & v1 & r & x & Hd & Hx & Hpos).
+      exists v0, v1, r. split; auto.
+      erewrite scalar_of_ok in Hx; [|rewrite Same; eauto|rewrite Same; eauto]. inversion Hx; subst x.
+      simpl in Hpos. replace (sign * v1 - sign * v0)%Z with (sign * (v1 - v0))%Z by ring. lia.
+    - intro; subst. rewrite Hself in Hs1b. discriminate.
+    - intro; subst. rewrite Ht0 in Hs1b. discriminate.
+    - intro; subst. rewrite Hsi in Hs1b. discriminate.
+    - intro; subst. rewrite Hdur in Hs1b. discriminate.
+    - intro; subst. rewrite Hself in Hb0. discriminate.
+    - intro; subst. rewrite Hself in Hb1. discriminate.
+    - intro; subst. rewrite Hself in Hb2. discriminate. }
+  rewrite Es in E3. discriminate.
+Qed.
+
+Lemma rebind_scaled_runs self k s1 cb b sh cf t0 si dur b0 b1 b2 z0 z1 z2 c0 c1 c2 :
+  let s2 := mkstore (next s1) (upd (mem s1) b cb) in
+  mem s1 self = Some (CArr b sh (KUniform cf t0 si dur)) ->
+  scalar_at s1 t0 b0 z0 c0 -> scalar_at s1 si b1 z1 c1 -> scalar_at s1 dur b2 z2 c2 ->
+  (k <> 0)%Z ->
+  self < next s1 ->
+  t0 < next s1 -> b0 < next s1 -> si < next s1 -> b1 < next s1 -> dur < next s1 -> b2 < next s1 ->
+  self <> b ->
+  t0 <> b -> b0 <> b -> si <> b -> b1 <> b -> dur <> b -> b2 <> b ->
+  t0 <> self -> b0 <> self -> si <> self -> b1 <> self -> dur <> self -> b2 <> self ->
+  snd (rebind_scaled self k s2) = Ok tt.
+Proof.
+  intros s2 Hself (sh0 & k0 & dt0 & Ht0 & Hb0 & Hc0) (sh1 & k1 & dt1 & Hsi & Hb1 & Hc1)
+         (sh2 & k2 & dt2 & Hdur & Hb2 & Hc2) Hk.
+  intros. subst s2.
+  assert (L1 : mem {| next := next s1; mem := upd (mem s1) b cb |} self = Some (CArr b sh (KUniform cf t0 si dur))) by lk.
+  unfold rebind_scaled. unfold bind at 1. rewrite (read_ok _ _ _ L1). cbv beta iota.
+  unfold bind at 1. erewrite (scalar_of_ok t0) by lk. cbv beta iota.
+  unfold bind at 1. rewrite new_arr_eq. cbv beta iota.
+  unfold bind at 1. rewrite write_eq. cbv beta iota.
+  unfold bind at 1. erewrite (scalar_of_ok si) by lk. cbv beta iota.
+  unfold bind at 1. rewrite new_arr_eq. cbv beta iota.
+  unfold bind at 1. rewrite write_eq. cbv beta iota.
+  unfold bind at 1. erewrite (scalar_of_ok dur) by lk. cbv beta iota.
+  unfold bind at 1. rewrite new_arr_eq. cbv beta iota.
+  unfold bind at 1. rewrite write_eq. cbv beta iota.
+  destruct (Z.eqb_spec k 0); [contradiction|reflexivity].
+Qed.
+
+Lemma ut_imul_failure_cases2 self v s e :
+  snd (ut_imul self v s) = Exn e ->
+  ext [] s (fst (ut_imul self v s)) \/
+  exists k s2, v = PInt k /\ (0 < k)%Z /\
+     iop_inplace Z.mul self (S (next s)) (fst (new_arr I64 [k] [] KPlain s)) = (s2, Ok tt) /\
+     snd (rebind_scaled self k s2) = Exn e.
+Proof.
+  intros H. destruct v as [k|k|l].
+  - revert H. unfold ut_imul. destruct (Z.leb_spec k 0) as [Hle|Hgt]; [intros; left; apply ext_refl|].
+    cbv beta delta [bind]. rewrite new_arr_eq. cbn [fst snd].
+    match goal with |- context [iop_inplace Z.mul self ?kk ?st] =>
+      assert (Hp : ext [] s st) by (change st with (fst (new_arr I64 [k] [] KPlain s)); apply new_arr_pure);
+      destruct (iop_inplace Z.mul self kk st) as [s2 [[]|e2]] eqn:E2; cbn [fst snd]
+    end.
+    + intros H'. right. exists k, s2. repeat split; auto.
+    + intros _. left.
+      match type of E2 with iop_inplace ?f ?a ?b ?st = _ =>
+        pose proof (iop_inplace_exn f a b st e2) as Hx end.
+      rewrite E2 in Hx. simpl in Hx. rewrite Hx by reflexivity. exact Hp.
+  - destruct (ut_imul_failure_cases _ _ _ _ H) as [|(k' & s2 & Hv & _)]; auto. discriminate.
+  - destruct (ut_imul_failure_cases _ _ _ _ H) as [|(k' & s2 & Hv & _)]; auto. discriminate.
+Qed.
+
+(* FAILURE ATOMICITY of UniformTime *= : a failing call has written nothing *)
+Lemma ut_imul_failure_atomic self v s e b :
+  wf s -> typed_axis s self b ->
+  snd (ut_imul self v s) = Exn e -> ext [] s (fst (ut_imul self v s)).
+Proof.
+  intros Hwf (sh & cf & t0 & si & dur & b0 & b1 & b2 & z0 & z1 & z2 & c0 & c1 & c2 &
+              Hself & Ht0 & Hsi & Hdur & N1 & N2 & N3 & N4 & N5 & N6) Hexn.
+  destruct (ut_imul_failure_cases2 _ _ _ _ Hexn) as [|(k & s2 & -> & Hk & E2 & E3)]; auto.
+  exfalso. rewrite new_arr_eq in E2. cbn [fst] in E2.
+  apply iop_inplace_ok in E2 as (b' & sh' & k' & dtb & db & cb & Hs1self & Hs1b & ->).
+  pose proof (wf_lt _ _ _ Hwf Hself) as Lself.
+  pose proof Hwf as [_ Hrefs].
+  assert (Lb : b < next s) by (apply (Hrefs self _ Hself); simpl; auto).
+  assert (Lt0 : t0 < next s) by (apply (Hrefs self _ Hself); simpl; auto).
+  assert (Lsi : si < next s) by (apply (Hrefs self _ Hself); simpl; auto).
+  assert (Ldur : dur < next s) by (apply (Hrefs self _ Hself); simpl; auto).
+  set (s1 := {| next := S (S (next s));
+                mem := upd (upd (mem s) (next s) (CBuf I64 [k])) (S (next s)) (CArr (next s) [] KPlain) |}) in *.
+  assert (Same : forall l, l < next s -> mem s1 l = mem s l).
+  { intros l Hl. subst s1. cbn [mem]. rewrite !upd_other by lia. reflexivity. }
+  rewrite (Same self Lself), Hself in Hs1self. inversion Hs1self; subst b' sh' k'. clear Hs1self.
+  rewrite (Same b Lb) in Hs1b.
+  destruct Ht0 as (sh0 & k0 & dt0 & Ht0 & Hb0 & Hc0).
+  destruct Hsi as (sh1 & k1 & dt1 & Hsi & Hb1 & Hc1).
+  destruct Hdur as (sh2 & k2 & dt2 & Hdur & Hb2 & Hc2).
+  assert (Lb0 : b0 < next s) by (apply (Hrefs t0 _ Ht0); destruct k0; simpl; auto).
+  assert (Lb1 : b1 < next s) by (apply (Hrefs si _ Hsi); destruct k1; simpl; auto).
+  assert (Lb2 : b2 < next s) by (apply (Hrefs dur _ Hdur); destruct k2; simpl; auto).
+  assert (Ns : next s1 = S (S (next s))) by reflexivity.
+  assert (Es : snd (rebind_scaled self k {| next := next s1; mem := upd (mem s1) b cb |}) = Ok tt).
+  { eapply (rebind_scaled_runs self k s1 cb b sh cf t0 si dur b0 b1 b2 z0 z1 z2 c0 c1 c2); try lia; auto.
+    - rewrite Same; auto.
+    - exists sh0, k0, dt0. rewrite !Same; auto.
+    - exists sh1, k1, dt1. rewrite !Same; auto.
+    - exists sh2, k2, dt2. rewrite !Same; auto.
+    - intro; subst. rewrite Hself in Hs1b. discriminate.
+    - intro; subst. rewrite Ht0 in Hs1b. discriminate.
+    - intro; subst. rewrite Hsi in Hs1b. discriminate.
+    - intro; subst. rewrite Hdur in Hs1b. discriminate.
+    - intro; subst. rewrite Hself in Hb0. discriminate.
+    - intro; subst. rewrite Hself in Hb1. discriminate.
+    - intro; subst. rewrite Hself in Hb2. discriminate. }
+  rewrite Es in E3. discriminate.
+Qed.
+
+(* observable forms *)
+Lemma ut_iop_failure_atomic_snapshot sign self v s e b l :
+  wf s -> typed_axis s self b ->
+  (forall x, v = PRef x -> x <> self /\ forall bl sh k, mem s x = Some (CArr bl sh k) -> bl <> b) ->
+  l < next s -> snd (ut_iop sign self v s) = Exn e ->
+  snapshot (fst (ut_iop sign self v s)) l = snapshot s l.
+Proof. intros. apply ext_nil_snapshot; auto. eapply ut_iop_failure_atomic; eauto. Qed.
+Lemma ut_imul_failure_atomic_snapshot self v s e b l :
+  wf s -> typed_axis s self b -> l < next s -> snd (ut_imul self v s) = Exn e ->
+  snapshot (fst (ut_imul self v s)) l = snapshot s l.
+Proof. intros. apply ext_nil_snapshot; auto. eapply ut_imul_failure_atomic; eauto. Qed.
+
+(* non-vacuity: the example axis is well-typed, its operand is separate, and both calls fail *)
+Lemma ex_ut2_typed : typed_axis ex_ut2 7 6 /\
+  (forall x, PRef 9 = PRef x -> x <> 7 /\ forall bl sh k, mem ex_ut2 x = Some (CArr bl sh k) -> bl <> 6).
+Proof.
+  split.
+  - exists [3], 1000000000%Z, 1, 3, 5, 0, 2, 4, 0%Z, 1000000000%Z, 3000000000%Z, 1000000000%Z, 1000000000%Z, 1000000000%Z.
+    split; [reflexivity|].
+    split; [exists [], (KTime 1000000000), I64; repeat split|].
+    split; [exists [], (KTime 1000000000), I64; repeat split|].
+    split; [exists [], (KTime 1000000000), I64; repeat split|].
+    repeat split; discriminate.
+  - intros x Hx. inversion Hx; subst x. split; [discriminate|].
+    intros bl sh k Hm. vm_compute in Hm. inversion Hm. discriminate.
+Qed.
